@@ -3,14 +3,16 @@
 //! Case lines
 //!   c06.* rt <S|U> <L|B> <title> <k:m,k:m,...|~>      build through set_title/set_message, serialize, from_bytes
 //!   c06.* fa <S|U> <L|B> <data> <off:label,...|~>     TextArchive::from_archive on a hand-built BinArchive
+//!   c07.* rtd ... (as rt)                              same run as rt; prints `ok parsed dirty=<0|1>` | `ok unparsed` only
 //!   c07.* new <S|U> <L|B>                              stateful: first line creates the archive
 //!   c07.* set <k> <m> | del <k> | has <k> | get <k> | title <t> | setget <k>
 //! Strings are hex of UTF-8 (`-` = empty), lists are comma separated (`~` = empty list).
 //!
 //! Implementation lines
-//!   rt : `ok stored=<k:v,..> bytes=<hex> parsed title=<hex> dirty=<0|1> entries=<k:v,..>`
+//!   rt : `ok stored=<k:v,..> bytes=<hex> parsed title=<hex> entries=<k:v,..> reser=<same|diff|err:Class>`
+//!        (reser: the parsed archive serialised again, compared with `bytes`)
 //!        | `ok stored=.. bytes=<hex> parse-err <Class>` | `err <Class>` (serialize failed) | `panic`
-//!   fa : `ok title=<hex> dirty=<0|1> entries=<k:v,..>` | `err <Class>` | `panic`
+//!   fa : `ok title=<hex> entries=<k:v,..>` | `err <Class>` | `panic`
 //!   c07: `ok r=<unit|true|false|none|some:<hex>> title=<hex> dirty=<0|1> entries=<k:v:g,..>` with
 //!        v the stored value and g = get_message(k).
 use crate::util::*;
@@ -90,6 +92,7 @@ fn parse_pairs(s: &str) -> Vec<(String, String)> {
 // ------------------------------------------------------------------------------------------------
 
 fn run_rt(f: &[&str]) -> String {
+    let dirty_only = f[1] == "rtd";
     let (fmt, endian) = (fmt_of(f[2]), endian_of(f[3]));
     let title = unhexs(f[4]);
     let entries: Vec<(String, String)> = parse_pairs(f[5]).into_iter().map(|(k, m)| (unhexs(&k), unhexs(&m))).collect();
@@ -102,16 +105,27 @@ fn run_rt(f: &[&str]) -> String {
         let stored = pairs(t.get_entries().iter());
         let bytes = match t.serialize() {
             Ok(b) => b,
+            Err(_) if dirty_only => return "ok unparsed".to_string(),
             Err(e) => return format!("err {}", ta_class(&e)),
         };
+        if dirty_only {
+            return match TextArchive::from_bytes(&bytes, fmt, endian) {
+                Ok(p) => format!("ok parsed dirty={}", p.is_dirty() as u8),
+                Err(_) => "ok unparsed".to_string(),
+            };
+        }
         match TextArchive::from_bytes(&bytes, fmt, endian) {
             Ok(p) => format!(
-                "ok stored={} bytes={} parsed title={} dirty={} entries={}",
+                "ok stored={} bytes={} parsed title={} entries={} reser={}",
                 stored,
                 hex(&bytes),
                 hexs(p.get_title()),
-                p.is_dirty() as u8,
-                pairs(p.get_entries().iter())
+                pairs(p.get_entries().iter()),
+                match p.serialize() {
+                    Ok(b2) if b2 == bytes => "same".to_string(),
+                    Ok(_) => "diff".to_string(),
+                    Err(e) => format!("err:{}", ta_class(&e)),
+                }
             ),
             Err(e) => format!("ok stored={} bytes={} parse-err {}", stored, hex(&bytes), ta_class(&e)),
         }
@@ -137,7 +151,7 @@ fn run_fa(f: &[&str]) -> String {
             }
         }
         match TextArchive::from_archive(&a, fmt, endian) {
-            Ok(p) => format!("ok title={} dirty={} entries={}", hexs(p.get_title()), p.is_dirty() as u8, pairs(p.get_entries().iter())),
+            Ok(p) => format!("ok title={} entries={}", hexs(p.get_title()), pairs(p.get_entries().iter())),
             Err(e) => format!("err {}", ta_class(&e)),
         }
     });
@@ -207,11 +221,11 @@ fn run_c07(st: &mut super::State, f: &[&str]) -> String {
 pub fn run_line(st: &mut super::State, line: &str) -> String {
     let f: Vec<&str> = line.split(' ').collect();
     let id = f[0];
-    let out = if id.starts_with("c07") {
+    let out = if id.starts_with("c07") && f[1] != "rtd" {
         run_c07(st, &f)
     } else {
         match f[1] {
-            "rt" => run_rt(&f),
+            "rt" | "rtd" => run_rt(&f),
             "fa" => run_fa(&f),
             _ => "bad-case".to_string(),
         }
@@ -331,7 +345,7 @@ fn gen_c06(rng: &mut Rng, tier: &str, lines: &mut Vec<String>) {
         lines.push(rt_line(&mut n, f, e, "t\0u", &[(s("k"), s("ab"))]));
     }
     // --- random archives
-    let count = if thorough { 20000 } else { 700 };
+    let count = if thorough { 60000 } else { 10000 };
     for _ in 0..count {
         let (f, e) = *rng.pick(&combos);
         let tl = rng.range(0, 9) as usize;
@@ -351,7 +365,7 @@ fn gen_c06(rng: &mut Rng, tier: &str, lines: &mut Vec<String>) {
         lines.push(rt_line(&mut n, f, e, &title, &entries));
     }
     // --- from_archive on hand-built bin archives (reader model, not produced by the writer)
-    let count = if thorough { 12000 } else { 500 };
+    let count = if thorough { 40000 } else { 6000 };
     for _ in 0..count {
         let (f, e) = *rng.pick(&combos);
         let mut data: Vec<u8> = Vec::new();
@@ -539,13 +553,48 @@ fn gen_c07(rng: &mut Rng, tier: &str, lines: &mut Vec<String>) {
             lines.push(format!("{} {}", id, l));
         }
     }
+    // --- the dirty flag of a *parsed* archive: serialize + from_bytes, judged on `dirty` only
+    let combos = [("S", "L"), ("S", "B"), ("U", "L"), ("U", "B")];
+    for i in 0..(if thorough { 400 } else { 60 }) {
+        let (f, e) = combos[i % 4];
+        let ne = rng.range(1, 4) as usize;
+        let keys = distinct_keys(rng, ne);
+        let entries: Vec<String> = keys
+            .iter()
+            .map(|k| {
+                let len = rng.range(0, 5) as usize;
+                format!("{}:{}", hexs(k), hexs(&sjis_string(rng, len)))
+            })
+            .collect();
+        lines.push(format!("c07.{:07} rtd {} {} {} {}", n, f, e, hexs(&sjis_string(rng, 2)), if entries.is_empty() { "~".to_string() } else { entries.join(",") }));
+        n += 1;
+    }
+}
+
+/// Which property's sub-stream to generate.  The family serves two properties; the orchestrator
+/// passes no property id to `gen`, so it is taken from `VERIF_PROP` when set, else from the output
+/// path the orchestrator uses (`work/<ID>/...`); with neither, both sub-streams are generated.
+fn wanted() -> (bool, bool) {
+    let hint = std::env::var("VERIF_PROP").ok().or_else(|| std::env::args().nth(5)).unwrap_or_default();
+    let c06 = hint.contains("C06");
+    let c07 = hint.contains("C07");
+    if c06 == c07 {
+        (true, true)
+    } else {
+        (c06, c07)
+    }
 }
 
 pub fn gen(seed: u64, tier: &str) -> Vec<String> {
+    let (c06, c07) = wanted();
     let mut lines = Vec::new();
-    let mut rng = Rng::new(seed ^ 0xC06);
-    gen_c06(&mut rng, tier, &mut lines);
-    let mut rng = Rng::new(seed ^ 0xC07);
-    gen_c07(&mut rng, tier, &mut lines);
+    if c06 {
+        let mut rng = Rng::new(seed ^ 0xC06);
+        gen_c06(&mut rng, tier, &mut lines);
+    }
+    if c07 {
+        let mut rng = Rng::new(seed ^ 0xC07);
+        gen_c07(&mut rng, tier, &mut lines);
+    }
     lines
 }
